@@ -564,7 +564,13 @@ class BufferConservation:
                            ("cold", cold, self.cap_cold)):
             if b.current_capacity < -EPS and (nm, "neg") not in self.flag:
                 self.flag.add((nm, "neg"))
-                run.violate("C07.nonnegative", "%s-free-below-zero" % nm,
+                cause = "%s-free-below-zero" % nm
+                if nm == "hot" and self._return_overlaps_ingest(run):
+                    # known finding: a cold->hot return and the ingest of a
+                    # newly admitted observation ran at the same time and
+                    # neither accounted for the other
+                    cause += ":cold-return-overlaps-ingest"
+                run.violate("C07.nonnegative", cause,
                             {"free": b.current_capacity})
             if b.current_capacity > cap + EPS \
                     and (nm, "over") not in self.flag:
@@ -572,6 +578,19 @@ class BufferConservation:
                 run.violate("C07.within-capacity",
                             "%s-free-above-capacity" % nm,
                             {"free": b.current_capacity, "cap": cap})
+
+    def _return_overlaps_ingest(self, run):
+        now = run.env.now
+        rets = [a for a in run.probe.acts if a["kind"] == "c2h"
+                and a["ret"] is not False]
+        ings = [a for a in run.probe.acts if a["kind"] == "ingest_stream"]
+        for r in rets:
+            r1 = now if r["t1"] is None else r["t1"]
+            for g in ings:
+                g1 = now if g["t1"] is None else g["t1"]
+                if r["t0"] <= g1 and g["t0"] <= r1:
+                    return True
+        return False
 
     def _ledger(self, run, t):
         """sum over resident observations of what they have deposited by the
